@@ -575,6 +575,19 @@ def _assumed_equalities(decisions):
     return m
 
 
+def _whole_array_branches(worlds):
+    """data-dependent decisions taken inside calculate whose condition is a reduction over an array (np.all / np.any /
+    np.allclose / array_equal of something that depends on k) and that do not end in a refusal"""
+    out = []
+    for dec, ip, r in worlds:
+        for c, b, loc in dec:
+            t = c.key()
+            name = t[1] if t[0] == 'flag' else (t[1][1] if t[0] == 'not' and t[1][0] == 'flag' else None)
+            if name and name.startswith(('all(', 'any(')) and 'k' in name:
+                out.append('%s at %s' % (name[:80], loc))
+    return sorted(set(out))
+
+
 def rule_history(ctx, rule='R11.h'):
     """omega(k) returned by a model depends on the k of *this* call only: evaluated (a) after an evaluation on another
     grid, (b) on the same array object whose contents the caller changed in place, (c) after the caller modified the
@@ -593,6 +606,13 @@ def rule_history(ctx, rule='R11.h'):
         bad = []
         und = []
         paths = 0
+        whole = _whole_array_branches(explore(lambda preset: _history_run(ctx.prog, make, 'fresh', preset)))
+        if whole:
+            n += 1
+            ctx.violation('R11.e', qual, 'whole-array-branch',
+                          'calculate branches on a condition over the whole k array (%s): the value returned for one k depends on '
+                          'which other k are in the array' % '; '.join(whole[:2]), m.loc())
+            continue
         for mode in ('new-array', 'same-array-mutated', 'result-mutated'):
             try:
                 worlds = explore(lambda preset: _history_run(ctx.prog, make, mode, preset))
